@@ -18,7 +18,12 @@
      DOk          listener answers "ok"   (the service declares retirement support)
      DErr         the request fails (sendCmd's err != nil branch)
    The 3 s start-up timer is replaced by explicit operations OQueryAll (checkRetireSupport)
-   and OQuery n (queryRetire for one service: one ack arriving on its own). *)
+   and OQuery n (queryRetire for one service: one ack arriving on its own).
+   What INodeApp.GetService answers may change over time (in the real app it is fed by the
+   cluster topology, replaced wholesale on every provider update): OHide n / OShow n make a
+   hosted service unresolvable / resolvable again at any point of the history; the service
+   itself keeps running (it can still report "retired").  [hid] is the set of names
+   currently hidden; sendCmd skips an unresolvable service and does nothing else. *)
 From Cell2V Require Import Common.Tac Common.ListX Common.AList.
 
 Inductive nstate := Working | Retiring | Retired | Exiting | Exited.
@@ -57,7 +62,9 @@ Inductive op :=
 | OQuery (n : Z)              (* queryRetire for hosted service n, its ack processed *)
 | OSvcCmd (n : Z) (k : scmd)  (* ctrl.servicecmd {Name n, Cmd retired|other}, reply observed *)
 | ONotify (n : Z)             (* app.NotifyServiceRetired from the service named n *)
-| OStopDone (succ : bool).    (* the oldest outstanding StopNode callback is called with succ *)
+| OStopDone (succ : bool)     (* the oldest outstanding StopNode callback is called with succ *)
+| OHide (n : Z)               (* from now on GetService(n) answers nil *)
+| OShow (n : Z).              (* GetService(n) answers the service's PID again (if it has one) *)
 
 Inductive reply :=
 | RNone                                          (* the operation has no reply *)
@@ -78,14 +85,19 @@ Record state := mk {
   nst : nstate;
   svcs : alist (nstate * bool);   (* per service: State, RetireSupport *)
   sup : bool;                     (* retireSupport *)
-  pend : nat                      (* StopNode callbacks outstanding *)
+  pend : nat;                     (* StopNode callbacks outstanding *)
+  hid : list Z                    (* environment: names GetService currently does not resolve *)
 }.
+
+(* GetService(n) != nil right now *)
+Definition resolvable (cfg : config) (s : state) (n : Z) : bool :=
+  present cfg n && negb (zmem n (hid s)).
 
 (* makeServices *)
 Definition init_svcs (cfg : config) : alist (nstate * bool) :=
   fold_left (fun m n => aset n (Working, false) m) (names cfg) [].
 
-Definition init (cfg : config) : state := mk Working (init_svcs cfg) false 0.
+Definition init (cfg : config) : state := mk Working (init_svcs cfg) false 0 [].
 
 (* checkAllRetireSupport / isAllServiceRetired *)
 Definition all_support (m : alist (nstate * bool)) : bool := forallb (fun kv => snd (snd kv)) m.
@@ -97,10 +109,10 @@ Definition query_one (cfg : config) (s : state) (n : Z) : state * list (Z * kcmd
   match aget n (svcs s) with
   | None => (s, [])
   | Some (st, sp) =>
-      if present cfg n then
+      if resolvable cfg s n then
         if answers_ok cfg n then
           let m := aset n (st, true) (svcs s) in
-          (mk (nst s) m (all_support m) (pend s), [(n, KQuery)])
+          (mk (nst s) m (all_support m) (pend s) (hid s), [(n, KQuery)])
         else (s, [(n, KQuery)])
       else (s, [])
   end.
@@ -114,9 +126,9 @@ Fixpoint query_list (cfg : config) (s : state) (l : list Z) : state * list (Z * 
       (s2, o1 ++ o2)
   end.
 
-(* SendCmdToAllSelfServices("retire"): configuration order, absent services skipped *)
-Definition retire_sends (cfg : config) : list (Z * kcmd) :=
-  flat_map (fun n => if present cfg n then [(n, KRetire)] else []) (names cfg).
+(* SendCmdToAllSelfServices("retire"): configuration order, unresolvable services skipped *)
+Definition retire_sends (cfg : config) (s : state) : list (Z * kcmd) :=
+  flat_map (fun n => if resolvable cfg s n then [(n, KRetire)] else []) (names cfg).
 
 (* onServiceRetired, repaired: the node state only ever advances *)
 Definition service_retired (s : state) (n : Z) : state * list aev :=
@@ -125,22 +137,22 @@ Definition service_retired (s : state) (n : Z) : state * list aev :=
   | Some (_, sp) =>
       let m := aset n (Retired, sp) (svcs s) in
       if all_retired m && (rank (nst s) <? rank Retired)
-      then (mk Retired m (sup s) (pend s), [EPub Retired])
-      else (mk (nst s) m (sup s) (pend s), [])
+      then (mk Retired m (sup s) (pend s) (hid s), [EPub Retired])
+      else (mk (nst s) m (sup s) (pend s) (hid s), [])
   end.
 
 Definition do_retire (cfg : config) (s : state) : state * obs :=
   match nst s with
   | Working | Retiring =>
       if sup s
-      then (mk Retiring (svcs s) (sup s) (pend s), Ob ROk [EPub Retiring] (retire_sends cfg))
+      then (mk Retiring (svcs s) (sup s) (pend s) (hid s), Ob ROk [EPub Retiring] (retire_sends cfg s))
       else (s, Ob RNoSupport [] [])
   | x => (s, Ob (RBadState x) [] [])
   end.
 
 Definition do_exit (s : state) : state * obs :=
   match nst s with
-  | Retired => (mk Exiting (svcs s) (sup s) (S (pend s)), Ob ROk [EPub Exiting; EStop] [])
+  | Retired => (mk Exiting (svcs s) (sup s) (S (pend s)) (hid s), Ob ROk [EPub Exiting; EStop] [])
   | x => (s, Ob (RBadState x) [] [])
   end.
 
@@ -164,9 +176,13 @@ Definition step (cfg : config) (s : state) (o : op) : state * obs :=
       match pend s with
       | O => (s, Ob RNone [] [])
       | S p =>
-          if succ then (mk Exited (svcs s) (sup s) p, Ob RNone [EPub Exited] [])
-          else (mk (nst s) (svcs s) (sup s) p, Ob RNone [] [])
+          if succ then (mk Exited (svcs s) (sup s) p (hid s), Ob RNone [EPub Exited] [])
+          else (mk (nst s) (svcs s) (sup s) p (hid s), Ob RNone [] [])
       end
+  | OHide n =>
+      (mk (nst s) (svcs s) (sup s) (pend s) (if zmem n (hid s) then hid s else n :: hid s), Ob RNone [] [])
+  | OShow n =>
+      (mk (nst s) (svcs s) (sup s) (pend s) (filter (fun k => negb (Z.eqb k n)) (hid s)), Ob RNone [] [])
   end.
 
 Fixpoint run_from (cfg : config) (s : state) (ops : list op) : state * list obs :=
